@@ -24,6 +24,7 @@ RULES = {
              "summed gradient and its own (layer, filter, bias) state slot to Optimizer::update (R03.3's call-site rule re-run)",
     "R04.5": "every sample of a batch is mapped exactly once (into_par_iter/par_iter . map . collect only; no filter/flat_map/skip)",
 }
+RULES["R04.3"] += " | every per-sample result contributes exactly once to each accumulator on every path through the accumulation loop (first-result assignment or zipped add), whichever way the body is left; no break/return"
 ASSUMPTIONS = ["rayon: par_chunks(n) partitions a slice into consecutive chunks of n (last may be shorter), in order; collect of an indexed "
                "parallel iterator preserves order", "numerical equivalence to a reference trainer is not decided"]
 TRUSTED = ["rustc nightly front end", "driver/src/main.rs", "sa/e4.py path enumeration", "sa/e1.py"]
